@@ -601,6 +601,16 @@ func isSuggest(targetT base.T, sig base.Sig) bool {
 		return false
 	}
 
+	// (a value is an explicit receiver: nothing private can be called on it,
+	// whichever class's method produced the value)
+	if sig.IsPrivate {
+		switch targetT.GetType() {
+		case base.INT, base.FLOAT, base.ARRAY, base.HASH, base.STRING, base.OBJECT,
+			base.SYMBOL, base.NIL, base.BOOL:
+			return false
+		}
+	}
+
 	// a value with a class of its own answers with that class. Where it was
 	// produced (DefinedClass, the static flag of the method that returned it)
 	// says what `self` can call there, which matters only for a target without
